@@ -1223,11 +1223,13 @@ fn designator_to_asg(
         }
         Some(synast::Expr::Identifier(identifier)) => {
             let (sym, typ) = lookup_identifier(&identifier, context);
+            // If the identifier is unbound, `UndefVarError` has already been logged.
+            let sym = sym.ok()?;
             if typ.is_const() {
-                let const_value = context.get_const_value(sym.unwrap());
-                let width = match u32::try_from(const_value.unwrap()) {
-                    Ok(width) => width,
-                    Err(_) => {
+                let const_value = context.get_const_value(sym).map(u32::try_from);
+                let width = match const_value {
+                    Some(Ok(width)) => width,
+                    Some(Err(_)) | None => {
                         context.insert_error(InvalidDesignatorError, &identifier);
                         // It's not clear what value to substitute for the width if we don't have a valid one.
                         // We choose zero.
@@ -1236,6 +1238,8 @@ fn designator_to_asg(
                 };
                 Some(width)
             } else {
+                // A designator must be a constant integer expression.
+                context.insert_error(ConstIntegerError, &identifier);
                 None
             }
         }
